@@ -3,8 +3,8 @@ import fcntl, hashlib, json, os, shutil, subprocess, sys, time
 
 VERIF = os.path.dirname(os.path.dirname(os.path.abspath(__file__)))
 REPO = os.environ.get("PGCHECK_REPO", "/repo")
-CACHE = os.path.join(VERIF, ".cache")
-DRIVER_DIR = os.path.join(VERIF, "pgfacts")
+CACHE = os.environ.get("PGCHECK_CACHE") or os.path.join(VERIF, ".cache")
+DRIVER_DIR = os.environ.get("PGCHECK_DRIVER") or os.path.join(VERIF, "pgfacts")
 DRIVER = os.path.join(DRIVER_DIR, "target", "release", "pgfacts")
 
 MEMBERS = ["penguin-mux", "cow-bytes", "penguin-socks", "rusty-penguin", "async-acceptor"]
